@@ -129,6 +129,13 @@ def run(tier, seed, replay):
 
 
 def finish_bounded(chk, rnd, thorough):
+    # every file named on the command line is judged on its own content (two files, one without header)
+    from .common import run_native
+    t0 = time.time()
+    dd = run_native("discovery_harness", {"op": "dotdot"}, timeout=120)
+    chk.finite("cli.each_named_file_gets_its_own_header_verdict", not dd["violations"], dd["cases"],
+               {"violations": dd["violations"][:2]}, what=f"header diagnostics of files named in one run: {dd['violations'][:1]}",
+               time_s=time.time() - t0)
     # ---------------------------------------------------------------- bounded composition
     cases, fails, dt = bounded(chk, rnd, thorough)
     chk.add_bounded("Lexer + Registry.run (whole pipeline)",
@@ -178,6 +185,12 @@ def bounded(chk, rnd, thorough):
         body = BODIES[bi]
         cases.append({"kind": "absent", "body": bi, "text": body.lstrip("\n"), "expect": 1})
         cases.append({"kind": "preceded_by_code", "body": bi, "text": "int\tg_y;\n" + good + body, "expect": 1})
+        # ... whatever kind of statement it is (each of these is recognised by another primary rule)
+        for k, stmt in enumerate(["ft_call(1);", "_Static_assert(sizeof(int) == 4, \"int\");", "(void)g_a;", "g_a = g_b ? 1 : 2;",
+                                  "g_a = 1;", "typedef int\tt_i;", "#include <unistd.h>", "# define A 1", ";", "struct s_a;",
+                                  "enum e_a\n{\n\tA\n};", "// not a header", "__attribute__((unused));"]):
+            if bi == 0:
+                cases.append({"kind": f"preceded_by_statement[{k}]", "body": bi, "text": stmt + "\n" + good + body, "expect": 1})
         cases.append({"kind": "preceded_by_empty_line", "body": bi, "text": "\n" + good + body, "expect": 1})
         slashes = "".join("//" + ln[2:-2] + "\n" for ln in good.rstrip("\n").split("\n"))
         cases.append({"kind": "written_with_slashes", "body": bi, "text": slashes + body, "expect": 1})
